@@ -3,7 +3,7 @@
    code of reshape.go, flatten.go, squeeze.go, unsqueeze.go, shape.go as repaired), S = the
    ONNX text as written in Check/CheckC07.v (reshape_spec ... shape_spec). *)
 From Coq Require Import List ZArith Bool String.
-From V Require Import DType Tensor Case OpCheck ShapeOps CheckC07 ShapeOpsProofs C07Payload C07Numel C07Numel2 C07Numel3.
+From V Require Import DType Tensor Case OpCheck ShapeOps CheckC07 ShapeOpsProofs C07Payload C07Numel C07Numel2 C07Numel3 C07WellFormed.
 Import ListNotations.
 Open Scope Z_scope.
 
@@ -68,6 +68,22 @@ Theorem C07_squeeze_axes_keeps_count t a v :
   squeeze_spec t (Some a) = SMust [Some v] \/ squeeze_spec t (Some a) = SEither [Some v] -> total v = total t.
 Proof. exact (squeeze_axes_keeps_count t a v). Qed.
 Print Assumptions C07_squeeze_axes_keeps_count.
+(* together: for a well-formed input (payload length = element count of its shape) every value
+   S demands -- or allows, for Squeeze with duplicate axes -- is a well-formed tensor *)
+Theorem C07_spec_values_well_formed t :
+  wf_tval t = true ->
+  (forall shp v, reshape_spec t shp = SMust [Some v] -> wf_tval v = true) /\
+  (forall axis v, flatten_spec axis t = SMust [Some v] -> wf_tval v = true) /\
+  (forall axes v, squeeze_spec t axes = SMust [Some v] \/ squeeze_spec t axes = SEither [Some v] -> wf_tval v = true) /\
+  (forall axes v, unsqueeze_spec t axes = SMust [Some v] -> wf_tval v = true).
+Proof.
+  intros Hw. repeat split; intros.
+  - eapply reshape_wf; eassumption.
+  - eapply flatten_wf; eassumption.
+  - eapply squeeze_wf; eassumption.
+  - eapply unsqueeze_wf; eassumption.
+Qed.
+Print Assumptions C07_spec_values_well_formed.
 
 (* the known-finding class is real: the model (and the code) panic on it *)
 Example C07_shape_rank0_refuted :
